@@ -30,6 +30,15 @@ type TokListSpec struct {
 	// "sp" (whitespace then a token, SpTerm), "eoh" (CRLF + non-WS), "end" (end of input)
 	Term string `json:"term"`
 	Tail B      `json:"tail"` // bytes after the terminator
+	// SpWS: the whitespace of the "sp" terminator (default one space); always ends in SP or HT
+	SpWS B `json:"spws,omitempty"`
+}
+
+func (l TokListSpec) spws() []byte {
+	if len(l.SpWS) == 0 {
+		return []byte(" ")
+	}
+	return l.SpWS
 }
 
 func tokSepTerm(flags sipsp.POptFlags) (sep, term byte) {
@@ -69,7 +78,7 @@ func (l TokListSpec) Render() []byte {
 		}
 		w.Write(l.Tail)
 	case "sp":
-		w.WriteString(" ")
+		w.Write(l.spws())
 		w.Write(l.Tail)
 	case "eoh":
 		w.WriteString("\r\n")
@@ -147,6 +156,9 @@ func genTokList(t *rapid.T, flags uint) TokListSpec {
 	}
 	opts = append(opts, "eoh", "end")
 	l.Term = pick(t, "tl_term", opts...)
+	if l.Term == "sp" {
+		l.SpWS = B(pick(t, "tl_spws", "", "", " ", "\t", "  ", " \t", "\t ", "\r\n ", "\r\n\t", "\n ", "\r ", " \r\n\t"))
+	}
 	l.Tail = B(pick(t, "tl_tail", "X", "x=1", "next", "", "a b", "?h=1", ",z"))
 	if l.Term == "sp" || l.Term == "eoh" {
 		if len(l.Tail) == 0 || isLWSByte(l.Tail[0]) {
@@ -162,7 +174,7 @@ func genTokQuoted(t *rapid.T) B {
 	w.WriteByte('"')
 	n := rapid.IntRange(0, 6).Draw(t, "tq_n")
 	for i := 0; i < n; i++ {
-		w.WriteString(pick(t, "tq", "a", "b c", ";", ",", "&", "?", "=", "\\\"", "\\\\", "\\x", "\t", "<>", "1", "@"))
+		w.WriteString(pick(t, "tq", "a", "b c", ";", ",", "&", "?", "=", "\\\"", "\\\\", "\\x", "\t", "<>", "1", "@", "!", "!#~", "\xc3\xa9", "\x80\xff", "\\!"))
 	}
 	w.WriteByte('"')
 	return w.Bytes()
